@@ -1,20 +1,22 @@
 #!/usr/bin/env python3
 """Authoring aid (never run by a registered command): record, per property and tier, how many cases
 fail under each known finding on the unchanged tree, from the evidence files of runs just made.
-usage: kfcounts.py [evidence.json ...]   (default: /verif/evidence/*.json)
-Only evidence with exhaustive=true and violations=0 is accepted."""
-import glob, json, sys
-P = "/verif/kf_counts.json"
-try:
-    m = json.load(open(P))
-except FileNotFoundError:
-    m = {}
-for f in (sys.argv[1:] or sorted(glob.glob("/verif/evidence/*.json"))):
+usage: kfcounts.py [evidence.json ...]   (default: <harness root>/evidence/*.json)
+Writes <harness root>/kf_counts/<Cxx>.json. Only evidence with exhaustive=true and violations=0 is accepted."""
+import glob, json, os, sys
+ROOT = os.path.dirname(os.path.dirname(os.path.abspath(__file__)))
+os.makedirs(f"{ROOT}/kf_counts", exist_ok=True)
+for f in (sys.argv[1:] or sorted(glob.glob(f"{ROOT}/evidence/*.json"))):
     d = json.load(open(f))
     cov = d["coverage"]
     if d.get("violations") or not cov.get("exhaustive"):
         print("skip (violations or not exhaustive):", f)
         continue
-    m.setdefault(d["property_id"], {})[d["tier"]] = dict(sorted(cov.get("known_findings_matched", {}).items()))
-json.dump(m, open(P, "w"), indent=1, sort_keys=True)
-print("wrote", P)
+    p = f"{ROOT}/kf_counts/{d['property_id']}.json"
+    try:
+        m = json.load(open(p))
+    except FileNotFoundError:
+        m = {}
+    m[d["tier"]] = dict(sorted(cov.get("known_findings_matched", {}).items()))
+    json.dump(m, open(p, "w"), indent=1, sort_keys=True)
+    print("wrote", p, d["tier"])
